@@ -465,7 +465,16 @@ func (w *World) observe(h interface{ Write([]byte) (int, error) }, res *Result) 
 	w.mu.Unlock()
 	snaps := w.snapshot()
 	w.mu.Lock()
-	w.ev(Ev{K: "q", Snap: snaps, Rec: parseRec(w.store.Live("g", w.now()))})
+	qe := Ev{K: "q", Snap: snaps, Rec: parseRec(w.store.Live("g", w.now()))}
+	for k := range w.store.Latest {
+		if k != "g" {
+			if qe.Recs == nil {
+				qe.Recs = map[string]*RecView{}
+			}
+			qe.Recs[k] = parseRec(w.store.Live(k, w.now()))
+		}
+	}
+	w.ev(qe)
 	// fingerprint: store + statuses + pending + queues, tokens canonicalised
 	var sb strings.Builder
 	canon := w.canon
